@@ -113,6 +113,11 @@ def _from_refusing_exit(e, pol, site):
     """The atom is the negation of a test whose branch only refuses (raises):
     whichever of the two refusals comes first, the input is refused, so the
     atom does not change what is accepted."""
+    par = e
+    while par is not None and not isinstance(par, ast.stmt):
+        par = getattr(par, '_parent', None)
+    if isinstance(par, ast.Assert) and par is not site:
+        return True      # what follows an assert runs only if it held; otherwise it raises
     if pol:
         return False
     st = _owning_if(e)
@@ -586,6 +591,33 @@ def _is_memo_test(f, e, memo):
     return False
 
 
+def _nulled_local(f, e, pol):
+    """`v = E` followed by `if G: v = None`, then a test `if v:` -- the test holds exactly when
+    E is true and G was false.  Returns the atoms of that reading (so that introducing such a
+    local reads as an added condition on E), or None when the shape is not this one."""
+    if not (pol and isinstance(e, ast.Name)):
+        return None
+    vals = defs(f.node).values.get(e.id, [])
+    if len(vals) != 2 or any(k != 'assign' for k, _, _ in vals):
+        return None
+    (_, v1, s1), (_, v2, s2) = vals
+    if not (isinstance(v2, ast.Constant) and not v2.value) or isinstance(v1, ast.Constant):
+        return None
+    pi = path_info(f.node)
+    if pi.conds.get(id(s1), ()) != pi.conds.get(id(s2), ())[:len(pi.conds.get(id(s1), ()))]:
+        return None
+    extra = pi.conds.get(id(s2), ())[len(pi.conds.get(id(s1), ())):]
+    if not extra:
+        return None
+    e_text = _clean(_subst_text(f, v1))
+    out = [_truthy(['atom', e_text, True])]
+    import re
+    g = ' and '.join(('(%s)' if p else 'not (%s)') % unparse(x) for x, p in extra)
+    g = re.sub(r'\b%s\b' % re.escape(e.id), e_text, g)
+    out.append(['atom', _clean(g), False])
+    return out
+
+
 def _enclosing_iters(f, n):
     """Texts of the iterables of the loops and comprehensions around ``n``."""
     out = []
@@ -632,6 +664,10 @@ def call_conditions(pm, funcs):
                     continue
                 if _is_memo_test(f, e, memo):
                     continue    # registry / memo test: decided by the memo-key rule
+                nulled = _nulled_local(f, e, pol)
+                if nulled is not None:
+                    atoms.extend(json.dumps(x) for x in nulled)
+                    continue
                 a = _truthy(canonical_atom(f, e, pol))
                 if a[0] == 'tv' and _clean(a[1]) in iters:
                     continue    # emptiness of the collection the call iterates over
